@@ -75,9 +75,17 @@ def gen_restype(g, name, atypes, idx, allow_vs=True, allow_angles=True, max_atom
         strained = True
     vsites = []
     if allow_vs and n >= 2 and g.random() < (0.9 if impossible else vs_p):
-        kind = g.choice(["n1", "n1", "2"] + (["3", "3fd", "3fad", "3out"] if n >= 3 else []) + (["4fdn"] if n >= 4 else []))
+        kind = g.choice(["n1", "n1", "2"] + (["3", "3fd", "3fad", "3out", "nested"] if n >= 3 else []) +
+                        (["4fdn"] if n >= 4 else []))
         site = {"name": f"{prefix}V", "atype": g.choice(atypes)}
-        if kind == "n1":
+        if kind == "nested":
+            # a virtual_sites3 site constructed from a virtual_sites2 site; [ virtual_sites3 ] is listed BEFORE
+            # [ virtual_sites2 ] in the itp (GROMACS does not care about the order of the directives)
+            vsites.append({"kind": "2", "funct": 1, "from": [0, 1], "params": [round(g.uniform(0.3, 0.7), 3)]})
+            vsites.append({"kind": "3", "funct": 1, "from": [n, 1, 2],
+                           "params": [round(g.uniform(0.2, 0.5), 3), round(g.uniform(0.2, 0.5), 3)]})
+            atoms.append({"name": f"{prefix}W", "atype": g.choice(atypes)})
+        elif kind == "n1":
             k = g.randint(2, min(3, n))
             vsites.append({"kind": "n", "funct": 1, "from": list(range(k)), "params": []})
         elif kind == "2":
@@ -100,7 +108,10 @@ def gen_restype(g, name, atypes, idx, allow_vs=True, allow_angles=True, max_atom
                            "params": [round(g.uniform(0.3, 1.0), 3), round(g.uniform(0.3, 1.0), 3),
                                       round(g.uniform(0.05, 0.2), 3)]})
         atoms.append(site)
-    return {"vs_zero_mass": bool(vsites) and g.random() < 0.5, "name": name, "atoms": atoms, "bonds": bonds, "constraints": constraints,
+    if len(vsites) == 2:
+        # the appended order is [W (for the vs2), V (for the vs3)]: vsites[0] <-> atom n, vsites[1] <-> atom n+1
+        pass
+    return {"vs3_before_vs2": len(vsites) == 2, "vs_zero_mass": bool(vsites) and g.random() < 0.5, "name": name, "atoms": atoms, "bonds": bonds, "constraints": constraints,
             "angles": angles, "vsites": vsites, "blen": blen, "impossible": impossible, "impropers": impropers,
             "strained": strained}
 
@@ -162,7 +173,9 @@ def expand_moltype(mt, restypes):
     def rtype(r, rname):
         return per_res.get(str(r)) or restypes[rname]
 
-    for r, rname in enumerate(mt["residues"]):
+    order = mt.get("list_order") or list(range(len(mt["residues"])))
+    for r in order:
+        rname = mt["residues"][r]
         rt = rtype(r, rname)
         ids = []
         for a in rt["atoms"]:
@@ -229,8 +242,13 @@ def render_itp(mt, restypes, atype_mass, with_mass=True):
         if with_mass:
             line += f" {0.0 if (resname, aname) in zero else atype_mass[atype]}"
         out.append(line)
-    for name in ("bonds", "constraints", "angles", "dihedrals", "virtual_sitesn", "virtual_sites2", "virtual_sites3",
-                 "virtual_sites4"):
+    names = ["bonds", "constraints", "angles", "dihedrals", "virtual_sitesn", "virtual_sites2", "virtual_sites3",
+             "virtual_sites4"]
+    rts = dict(restypes, **mt.get("restype_override", {}))
+    if any(rts[r].get("vs3_before_vs2") for r in set(mt["residues"])):
+        names = ["bonds", "constraints", "angles", "dihedrals", "virtual_sitesn", "virtual_sites3", "virtual_sites2",
+                 "virtual_sites4"]
+    for name in names:
         if sec[name]:
             out.append(f"[ {name} ]")
             out.extend(sec[name])
@@ -304,6 +322,11 @@ def gen_system(g, profile):
                                    shape=g.choice(profile["res_shapes"]) if profile.get("res_shapes") else None,
                                    impossible_p=profile.get("impossible_p", 0.0), vs_p=profile.get("vs_p", 0.25),
                                    improper_p=profile.get("improper_p", 0.0), strained_p=profile.get("strained_p", 0.0))
+    if g.random() < profile.get("sol_p", 0.0):
+        # the GROMACS default water residue name (some coordinate readers drop it by default)
+        last = sorted(restypes)[-1]
+        restypes["SOL"] = restypes.pop(last)
+        restypes["SOL"]["name"] = "SOL"
     nmt = g.randint(*profile.get("n_moltypes", (1, 3)))
     moltypes = []
     shapes = profile.get("shapes")
